@@ -2072,12 +2072,14 @@ impl Compiler {
                 if let Some(local_register) = self.frame().get_local_assigned_register(*id) {
                     // The item to be imported is already locally assigned.
                     if local_register != result_register {
-                        if wildcard_import {
-                            self.push_op(ImportAll, &[local_register]);
-                        } else {
-                            self.push_op(Copy, &[result_register, local_register]);
-                        }
+                        self.push_op(Copy, &[result_register, local_register]);
                     }
+                    // If a previous import of the item failed, then the local still contains the
+                    // item's name rather than the imported value, in which case the import needs
+                    // to be attempted again.
+                    // Importing a value that has already been imported is a no-op,
+                    // other than registering a wildcard import.
+                    self.push_op(import_op, &[result_register]);
                     Ok(())
                 } else {
                     // If the id isn't a local then it needs to be imported
